@@ -21,85 +21,88 @@ HOOK = {'on_start_resource': 'OnStartResource', 'before_request_body': 'BeforeRe
         'on_end_resource': 'OnEndResource', 'on_end_request': 'OnEndRequest',
         'before_error_response': 'BeforeErrorResponse', 'after_error_response': 'AfterErrorResponse'}
 
+# Positions that hold LOCAL names (or parameters) are matched with \w+ : renaming a local must not change the term.
+W = r'[A-Za-z_]\w*'
+RESP = r'(?:%s|_?cherrypy\.serving\.response)' % W          # the response object, under any local alias
 ACTIONS = [
     (r"^self\.hooks\.run\('(\w+)'\)$", lambda m: 'Act (RunHooks %s)' % HOOK[m.group(1)]),
-    (r"^self\._do_respond\(path_info\)$", 'Call F_do_respond'),
-    (r"^self\.respond\(pi\)$", 'Call F_respond'),
+    (r"^self\._do_respond\(%s\)$" % W, 'Call F_do_respond'),
+    (r"^self\.respond\(%s\)$" % W, 'Call F_respond'),
     (r"^self\.handle_error\(\)$", 'Call F_handle_error'),
     (r"^self\.process_headers\(\)$", 'Act ProcessHeaders'),
-    (r"^self\.get_resource\(path_info\)$", 'Act GetResource'),
+    (r"^self\.get_resource\(%s\)$" % W, 'Act GetResource'),
     (r"^self\.body = _cpreqbody\.RequestBody\(", 'Act MakeBody'),
     (r"^self\.namespaces\(self\.config\)$", 'Act Namespaces'),
     (r"^self\.process_query_string\(\)$", 'Act ProcessQueryString'),
     (r"^self\.body\.process\(\)$", 'Act BodyProcess'),
-    (r"^response\.body = self\.handler\(\)$", 'Act Handler'),
-    (r"^(cherrypy\.serving\.)?response\.finalize\(\)$", 'Act Finalize'),
-    (r"^inst\.set_response\(\)$", 'Act SetResponseOfExc'),
+    (r"^%s\.body = self\.handler\(\)$" % RESP, 'Act Handler'),
+    (r"^%s\.finalize\(\)$" % RESP, 'Act Finalize'),
+    (r"^%s\.set_response\(\)$" % W, 'Act SetResponseOfExc'),
     (r"^self\.error_response\(\)$", 'Act ErrorResponse'),
-    (r"^body = format_exc\(\)$", 'Act FormatExcBody'),
-    (r"^tb = _cperror\.format_exc\(\)$", 'Act FormatExcTb'),
-    (r"^r = bare_error\(body\)$", 'Act BareError'),
-    (r"^s, h, b = _cperror\.bare_error\(tb\)$", 'Act BareErrorTrap'),
-    (r"^response\.output_status, response\.header_list, response\.body = r$", 'Act InstallBareError'),
+    (r"^%s = format_exc\(\)$" % W, 'Act FormatExcBody'),
+    (r"^%s = _cperror\.format_exc\(\)$" % W, 'Act FormatExcTb'),
+    (r"^%s = bare_error\(%s\)$" % (W, W), 'Act BareError'),
+    (r"^%s, %s, %s = _cperror\.bare_error\(%s\)$" % (W, W, W, W), 'Act BareErrorTrap'),
+    (r"^%s\.output_status, %s\.header_list, %s\.body = %s$" % (RESP, RESP, RESP, W), 'Act InstallBareError'),
     (r"^cherrypy\.log\.access\(\)$", 'Act LogAccess'),
-    (r"^dispatch = self\.app\.find_config\(", 'Act FindDispatch'),
-    (r"^dispatch\(path\)$", 'Act Dispatch'),
+    (r"^%s = self\.app\.find_config\(" % W, 'Act FindDispatch'),
+    (r"^dispatch\(%s\)$" % W, 'Act Dispatch'),
     (r"^self\.error_response = cherrypy\.HTTPError\(500\)\.set_response$", 'Act SetDefaultErrorResponse'),
     (r"^self\.response = self\.trap\( self\.nextapp, self\.environ, self\.start_response, \)$", 'Call F_trap_init'),
     (r"^return self\.trap\(next, self\.iter_response\)$", 'Seq (Call F_trap_next) Return'),
     (r"^self\.response\.close\(\)$", 'Call F_appresponse_close'),
-    (r"^response\.body = \[\]$", 'Act DropBody'),
+    (r"^%s\.body = \[\]$" % RESP, 'Act DropBody'),
     (r"^self\.hooks = self\.__class__\.hooks\.copy\(\)$", 'Act CopyHooks'),
     # _cptree
-    (r"^req = self\.request_class\(", 'Act NewRequest'),
-    (r"^resp = self\.response_class\(\)$", 'Act NewResponse'),
-    (r"^cherrypy\.serving\.load\(req, resp\)$", 'Act LoadServing'),
+    (r"^%s = self\.request_class\(" % W, 'Act NewRequest'),
+    (r"^%s = self\.response_class\(\)$" % W, 'Act NewResponse'),
+    (r"^cherrypy\.serving\.load\(%s, %s\)$" % (W, W), 'Act LoadServing'),
     (r"^cherrypy\.engine\.publish\('(acquire_thread|before_request|after_request)'\)$", 'Act PublishEngine'),
-    (r"^req\.close\(\)$", 'Call F_request_close'),
+    (r"^%s\.close\(\)$" % W, None),            # resolved by context: see Translator.simple
     (r"^cherrypy\.serving\.clear\(\)$", 'Act ClearServing'),
     # _cpwsgi
     (r"^self\.run\(\)$", 'Call F_appresponse_run'),
-    (r"^request, resp = self\.cpapp\.get_serving\(", 'Call F_get_serving'),
-    (r"^request\.run\(meth, path, qs, rproto, headers, rfile\)$", 'Call F_request_run'),
+    (r"^%s, %s = self\.cpapp\.get_serving\(" % (W, W), 'Call F_get_serving'),
+    (r"^%s\.run\(%s, %s, %s, %s, %s, %s\)$" % ((W,) * 7), 'Call F_request_run'),
     (r"^self\.close\(\)$", 'Call F_appresponse_close_init'),      # only in AppResponse.__init__'s except clause
     (r"^self\.cpapp\.release_serving\(\)$", 'Call F_release_serving'),
-    (r"^self\.iter_response = iter\(r\.body\)$", 'Act IterBody'),
-    (r"^self\.write = start_response\(outstatus, outheaders\)$", 'Act StartResponse'),
-    (r"^self\.start_response\(s, h, _sys\.exc_info\(\)\)$", 'Act StartResponseExc'),
-    (r"^iter_close\(\)$", 'Act IterClose'),
-    (r"^streaming = _cherrypy\.serving\.response\.stream$", 'Assign FStreaming'),
+    (r"^self\.iter_response = iter\(%s\.body\)$" % W, 'Act IterBody'),
+    (r"^self\.write = start_response\(%s, %s\)$" % (W, W), 'Act StartResponse'),
+    (r"^self\.start_response\(%s, %s, _sys\.exc_info\(\)\)$" % (W, W), 'Act StartResponseExc'),
+    (r"^%s = _cherrypy\.serving\.response\.stream$" % W, 'Assign FStreaming'),
     (r"^return func\(\*args, \*\*kwargs\)$", 'Seq CallParam Return'),
-    (r"^return b''\.join\(b\)$", 'Return'),
+    (r"^return b''\.join\(%s\)$" % W, 'Return'),
     (r"^return self\.nextapp\(environ, start_response\)$", 'Seq (Call F_appresponse_init) Return'),
-    (r"^ir\.request\.close\(\)$", 'Call F_ir_request_close'),
-    (r"^ir = _sys\.exc_info\(\)\[1\]$", 'Act BindIr'),
-    (r"^redirections\.append\(old_uri\)$", 'Act RecordUri'),
+    (r"^%s\.request\.close\(\)$" % W, 'Call F_ir_request_close'),
+    (r"^%s = _sys\.exc_info\(\)\[1\]$" % W, 'Act BindIr'),
+    (r"^%s\.append\(%s\)$" % (W, W), 'Act RecordUri'),
     (r"^self\.closed = True$", 'Act SetClosed'),
     (r"^self\.iter_response = iter\(\[\]\)$", 'Act EmptyIter'),
-    (r"^self\.iter_response = iter\(b\)$", 'Act ErrorIter'),
-    (r"^tb = ''$", 'Act ClearTb'),
-    (r"^body = ''$", 'Act ClearBody'),
+    (r"^self\.iter_response = iter\(%s\)$" % W, 'Act ErrorIter'),
+    (r"^%s = ''$" % W, None),                  # ClearTb in the trapper, ClearBody in Request.run
+    (r"^%s\(\)$" % W, None),                   # a local bound to self.iter_response.close: IterClose
 ]
 
 # statements that are dropped (cannot raise / irrelevant to control flow)
 DROP = [
     r"^self\.stage = ", r"^(_?cherrypy)\.log\(", r"^cherrypy\.log\.error\(", r"^pass$",
-    r"^inst = sys\.exc_info\(\)\[1\]$", r"^response = cherrypy\.serving\.response$",
-    r"^self\.toolmaps = \{\}$", r"^req = cherrypy\.serving\.request$", r"^req\.app = self$",
-    r"^iter_close = self\.iter_response\.close$", r"^self\.cpapp = cpapp$", r"^self\.environ = environ$",
-    r"^r = _cherrypy\.serving\.response$", r"^outstatus = r\.output_status$", r"^outheaders = \[\]$",
-    r"^redirections = \[\]$", r"^environ = environ\.copy\(\)$",
-    r"^env = self\.environ\.get$", r"^tmpl = ", r"^self\.nextapp = nextapp$", r"^self\.start_response = start_response$",
+    r"^%s = sys\.exc_info\(\)\[1\]$" % W, r"^%s = cherrypy\.serving\.response$" % W,
+    r"^self\.toolmaps = \{\}$", r"^%s = cherrypy\.serving\.request$" % W, r"^%s\.app = self$" % W,
+    r"^%s = self\.iter_response\.close$" % W, r"^self\.cpapp = cpapp$", r"^self\.environ = environ$",
+    r"^%s = _cherrypy\.serving\.response$" % W, r"^%s = %s\.output_status$" % (W, W), r"^%s = \[\]$" % W,
+    r"^environ = environ\.copy\(\)$",
+    r"^%s = self\.environ\.get$" % W, r"^tmpl = ", r"^self\.nextapp = nextapp$", r"^self\.start_response = start_response$",
     r"^self\.throws = throws$", r"^self\.started_response = False$",
     # operations on values that the preceding isinstance checks / bare_error guarantee to be bytes: cannot raise
-    r"^s = s\.decode\('ISO-8859-1'\)$", r"^h = \[ \(k\.decode\('ISO-8859-1'\), v\.decode\('ISO-8859-1'\)\) for k, v in h \]$",
-    r"^outheaders\.append\(\(k, v\)\)$", r"^outstatus = outstatus\.decode\('ISO-8859-1'\)$",
-    r"^outheaders = \[ \(k\.decode\('ISO-8859-1'\), v\.decode\('ISO-8859-1'\)\) for k, v in outheaders \]$",
+    r"^%s = %s\.decode\('ISO-8859-1'\)$" % (W, W),
+    r"^%s = \[ \(%s\.decode\('ISO-8859-1'\), %s\.decode\('ISO-8859-1'\)\) for %s, %s in %s \]$" % ((W,) * 6),
+    r"^%s\.append\(\(%s, %s\)\)$" % (W, W, W),
     r"^self\.iter_response = iter\(self\.response\)$",
 ]
 
 CONDS = [
     (r"^not self\.closed$", 'CNot (CFlag FClosed)'),
+    (r"^self\.closed$", 'CFlag FClosed'),
     (r"^self\.throw_errors$", 'CFlag FThrowErrors'),
     (r"^self\.show_tracebacks$", 'CFlag FShowTracebacksReq'),
     (r"^not _cherrypy\.request\.show_tracebacks$", 'CNot (CFlag FShowTracebacksServing)'),
@@ -110,12 +113,10 @@ CONDS = [
     (r"^self\.error_response$", 'CFlag FErrorResponseSet'),
     (r"^self\.app is None$", 'CFlag FAppNone'),
     (r"^not self\.recursive$", 'CNot (CFlag FRecursive)'),
-    (r"^new_uri in redirections$", 'CFlag FVisitedBefore'),
-    (r"^streaming and is_closable_iterator\(self\.iter_response\)$", 'CFlag FStreaming'),   # see Translator.stmt (If)
+    (r"^%s in %s$" % (W, W), 'CFlag FVisitedBefore'),
+    (r"^%s and is_closable_iterator\(self\.iter_response\)$" % W, 'CFlag FStreaming'),   # see Translator.stmt (If)
     (r"^True$", 'CTrue'),
-    (r"^not isinstance\(outstatus, bytes\)$", 'CNot (CFlag FStatusIsBytes)'),
-    (r"^not isinstance\(k, bytes\)$", 'CNot (CFlag FHeaderKeyIsBytes)'),
-    (r"^not isinstance\(v, bytes\)$", 'CNot (CFlag FHeaderValIsBytes)'),
+    (r"^not isinstance\((%s), bytes\)$" % W, None),      # which value: resolved by the role of the name
     (r"^hasattr\(self\.response, 'close'\)$", 'CFlag FResponseHasClose'),
 ]
 
@@ -132,11 +133,9 @@ EXC = {
 
 RAISE = {
     'cherrypy.NotFound()': 'XHTTPError',
-    "TypeError('response.output_status is not a byte string.')": 'XException',
-    'TypeError(tmpl % k)': 'XException',
-    'TypeError(tmpl % v)': 'XException',
-    'RuntimeError(tmpl % new_uri)': 'XException',
 }
+# any other raise of a built-in error class is the "unexpected Exception" of the model
+RAISE_CLASSES = r"^(TypeError|RuntimeError|ValueError|AssertionError)\("
 
 
 def _src(node, text):
@@ -162,6 +161,7 @@ class Translator:
         self.trapper = trapper
         self.in_init = in_init      # AppResponse.close as called from __init__: self.iter_response may be unset
         self.unknown = []
+        self.roles = {}
 
     def simple(self, node):
         s = _src(node, self.text)
@@ -171,23 +171,74 @@ class Translator:
         for rx, out in ACTIONS:
             m = re.search(rx, s)
             if m:
+                if out is None:
+                    out = self.by_context(s)
+                    if out is None:
+                        continue
                 return out(m) if callable(out) else out
         if isinstance(node, (ast.Assign, ast.AnnAssign, ast.AugAssign)) and node.value is not None and _pure(node.value):
             return None
         self.unknown.append(s)
         return 'Act Other'
 
+    def by_context(self, s):
+        """statements whose meaning depends on the function they stand in"""
+        if re.search(r"^%s = ''$" % W, s):
+            return 'Act ClearTb' if self.trapper else 'Act ClearBody'
+        m = re.search(r"^(%s)\.close\(\)$" % W, s)
+        if m and self.roles.get(m.group(1)) == 'request':
+            return 'Call F_request_close'
+        m = re.search(r"^(%s)\(\)$" % W, s)
+        if m and self.roles.get(m.group(1)) == 'iter_close':
+            return 'Act IterClose'
+        return None
+
+    def note_roles(self, fn):
+        """which local name holds what: the request being released, the header key / value / status under test"""
+        self.roles = {}
+        for n in ast.walk(fn):
+            if isinstance(n, ast.Assign) and len(n.targets) == 1 and isinstance(n.targets[0], ast.Name):
+                src = _src(n.value, self.text)
+                if src == 'cherrypy.serving.request':
+                    self.roles[n.targets[0].id] = 'request'
+                if src.endswith('.output_status'):
+                    self.roles[n.targets[0].id] = 'status'
+                if src == 'self.iter_response.close':
+                    self.roles[n.targets[0].id] = 'iter_close'
+            if isinstance(n, ast.For) and isinstance(n.target, ast.Tuple) and len(n.target.elts) == 2 \
+                    and all(isinstance(e, ast.Name) for e in n.target.elts) and _src(n.iter, self.text).endswith('.header_list'):
+                self.roles[n.target.elts[0].id] = 'key'
+                self.roles[n.target.elts[1].id] = 'val'
+
     def cond(self, node):
         s = _src(node, self.text)
         for rx, out in CONDS:
-            if re.search(rx, s):
+            m = re.search(rx, s)
+            if m:
+                if out is None:
+                    role = self.roles.get(m.group(1))
+                    out = {'status': 'CNot (CFlag FStatusIsBytes)', 'key': 'CNot (CFlag FHeaderKeyIsBytes)',
+                           'val': 'CNot (CFlag FHeaderValIsBytes)'}.get(role)
+                    if out is None:
+                        continue
                 return out
         self.unknown.append('if ' + s)
         return 'COther'
 
-    def block(self, stmts):
+    def block(self, stmts, top=False):
         out = []
-        for st in stmts:
+        for i, st in enumerate(stmts):
+            if (top and isinstance(st, ast.If) and not st.orelse and len(st.body) == 1
+                    and isinstance(st.body[0], ast.Return) and st.body[0].value is None and stmts[i + 1:]):
+                # guard clause at the top level of a function returning nothing:
+                #   if c: return ; rest      ==      if not c: rest
+                c = self.cond(st.test)
+                neg = c[len('CNot ('):-1] if c.startswith('CNot (') else 'CNot (%s)' % c
+                rest = self.block(stmts[i + 1:], top=True)
+                t = None if rest == 'Skip' else 'If (%s) (%s) (Skip)' % (neg, rest)
+                if t is not None:
+                    out.append(t)
+                break
             t = self.stmt(st)
             if t is None or t == 'Skip':
                 continue
@@ -219,9 +270,11 @@ class Translator:
             if st.exc is None:
                 return 'Raise None'
             s = _src(st.exc, self.text)
-            if s not in RAISE:
-                raise Unsupported('raise of unknown exception: %s' % s)
-            return 'Raise (Some %s)' % RAISE[s]
+            if s in RAISE:
+                return 'Raise (Some %s)' % RAISE[s]
+            if re.search(RAISE_CLASSES, s):
+                return 'Raise (Some XException)'
+            raise Unsupported('raise of unknown exception: %s' % s)
         if isinstance(st, ast.If):
             c = self.cond(st.test)
             a, b = self.block(st.body), self.block(st.orelse)
@@ -282,7 +335,8 @@ def translate(repo, relpath, qualname, in_init=False):
     tree = ast.parse(text)
     fn = find_function(tree, qualname)
     tr = Translator(text, trapper=qualname.startswith('_TrappedResponse'), in_init=in_init)
-    return tr.block(fn.body), tr.unknown
+    tr.note_roles(fn)
+    return tr.block(fn.body, top=True), tr.unknown
 
 
 FUNCTIONS = [
